@@ -510,3 +510,28 @@ def r12(rr, repo):
                 else:
                     rr.unresolved(f"cannot tell the format of what is stored into the {want} cache slot", mod, node, witness=f'{U(t)} = {U(v)[:60]}: {kinds}', key=f'slot-format|{qualname(fn)}|{U(t)}')
     rr.floor('stores into conversion cache slots', n, 5, mod, cls)
+
+
+@rule('C10.R13', "a writable view is made fresh on every call: rw, rw_rgb and rw_bgr return the frame itself or a Frame built on this very call - never something kept in (or read back from) the frame; two callers "
+                 "who each ask a read-only frame for a writable copy must not be handed the same pixels (the box transform draws into frame.rw.image)")
+def r13(rr, repo):
+    n = 0
+    for name in ('rw', 'rw_rgb', 'rw_bgr'):
+        mod, fn, paths = acc_paths(repo, name)
+        rr.paths += len(paths)
+        for p in paths:
+            o = p.outcome
+            if o is None or o[0] != 'return' or o[1] is None:
+                continue
+            n += 1
+            ret = U(o[1])
+            term = Evaluator.term_of(p, o[1]) if hasattr(Evaluator, 'term_of') else ret
+            built = [e for e in p.events if e.kind == 'call' and e.term == 'Frame']
+            kept = [e for e in p.events if e.kind == 'store' and e.term.startswith('self.') and e.args and (e.args[0].startswith('Frame(') or 'copy()' in e.args[0])]
+            read_back = 'getattr(self' in ret or ('self._Frame__' in ret and not ret.startswith('Frame(')) or any(k.startswith('isnone(getattr(self') and v is False for k, v in p.pc)
+            if ret == 'self' and not kept:
+                continue
+            ok = not kept and not read_back and (ret.startswith('Frame(') or bool(built))
+            rr.ob(f'{name}: what is returned besides the frame itself is built on this call and not kept in the frame', ok, mod, (kept[0].node if kept else fn),
+                  witness=f'returns {ret[:60]}; stored into the frame: {[e.term for e in kept] or "nothing"}; read back from the frame: {read_back}', key=f'rw-fresh|{name}')
+    rr.floor('returning paths of the writable-view accessors', n, 6)
